@@ -407,6 +407,185 @@ theorem no_empty_event (c : Conn) (o : Op) : ∀ e ∈ (connStep c o).2, e ≠ .
     simp only [connStep, remoteRemove] at he
     split at he <;> simp_all
 
+/-! ## `Connection::poll` granularity: every history of scripted handler behaviour -/
+
+/-- what holds between any two ops: the handler's local view is the valid part of the connection's
+retained key set; the remote view and the retained remote set are the fold of the reports -/
+structure PInv (c : PC) : Prop where
+  loc : ∀ p, p ∈ c.lfold ↔ p ∈ keys c.lmap ∧ valid p = true
+  rem : ∀ p, p ∈ c.rfold ↔ p ∈ c.reported
+  rset : ∀ p, p ∈ c.rset ↔ p ∈ c.reported
+
+/-- the handler's view equals what `listen_protocol()` advertises now -/
+def Synced (c : PC) : Prop :=
+  (∀ p, p ∈ c.lfold ↔ p ∈ c.adv ∧ valid p = true) ∧ (∀ k, k ∈ keys c.lmap ↔ k ∈ c.adv)
+
+theorem setAdv_fields (c : PC) (s : Option (List Name)) :
+    (setAdv c s).lmap = c.lmap ∧ (setAdv c s).lfold = c.lfold ∧ (setAdv c s).rfold = c.rfold ∧
+    (setAdv c s).rset = c.rset ∧ (setAdv c s).reported = c.reported := by
+  cases s <;> exact ⟨rfl, rfl, rfl, rfl, rfl⟩
+
+theorem deliver_fields (isLocal : Bool) (c : PC) (e : Ev) :
+    (deliver isLocal c e).lmap = c.lmap ∧ (deliver isLocal c e).rset = c.rset ∧
+    (deliver isLocal c e).reported = c.reported ∧
+    (deliver isLocal c e).lfold = (if isLocal then applyEv c.lfold e else c.lfold) ∧
+    (deliver isLocal c e).rfold = (if isLocal then c.rfold else applyEv c.rfold e) := by
+  unfold deliver
+  cases isLocal <;> simp only [Bool.false_eq_true, ↓reduceIte] <;> split
+  · exact ⟨rfl, rfl, rfl, rfl, rfl⟩
+  · rename_i s r _; cases s <;> exact ⟨rfl, rfl, rfl, rfl, rfl⟩
+  · exact ⟨rfl, rfl, rfl, rfl, rfl⟩
+  · rename_i s r _; cases s <;> exact ⟨rfl, rfl, rfl, rfl, rfl⟩
+
+theorem deliverAll_fields (isLocal : Bool) (evs : List Ev) (c : PC) :
+    (deliverAll isLocal c evs).lmap = c.lmap ∧ (deliverAll isLocal c evs).rset = c.rset ∧
+    (deliverAll isLocal c evs).reported = c.reported ∧
+    (deliverAll isLocal c evs).lfold = (if isLocal then applyEvs c.lfold evs else c.lfold) ∧
+    (deliverAll isLocal c evs).rfold = (if isLocal then c.rfold else applyEvs c.rfold evs) := by
+  induction evs generalizing c with
+  | nil => cases isLocal <;> exact ⟨rfl, rfl, rfl, rfl, rfl⟩
+  | cons e r ih =>
+    have h1 := deliver_fields isLocal c e
+    have h2 := ih (deliver isLocal c e)
+    simp only [deliverAll, List.foldl_cons] at h2 ⊢
+    obtain ⟨a1, a2, a3, a4, a5⟩ := h1
+    obtain ⟨b1, b2, b3, b4, b5⟩ := h2
+    refine ⟨b1.trans a1, b2.trans a2, b3.trans a3, ?_, ?_⟩
+    · rw [b4, a4]; cases isLocal <;> simp [applyEvs]
+    · rw [b5, a5]; cases isLocal <;> simp [applyEvs]
+
+/-- the bottom of the loop keeps the invariant; if it found nothing to report, the handler is in sync -/
+theorem bottomStep_spec (c : PC) (h : PInv c) :
+    PInv (bottomStep c).1 ∧ ((bottomStep c).2 = false → Synced (bottomStep c).1) := by
+  have hstep := fromFullSets_step c.lmap c.adv c.lfold h.loc
+  unfold bottomStep
+  simp only
+  split
+  · rename_i hemp
+    have hnil : (fromFullSets c.lmap c.adv).2 = [] := by simpa using hemp
+    have hfold : ∀ p, p ∈ c.lfold ↔ p ∈ c.adv ∧ valid p = true := by
+      intro p; have := hstep.2 p; rw [hnil] at this; exact this
+    refine ⟨⟨?_, h.rem, h.rset⟩, fun _ => ⟨hfold, hstep.1⟩⟩
+    intro p
+    show p ∈ c.lfold ↔ p ∈ keys (fromFullSets c.lmap c.adv).1 ∧ valid p = true
+    rw [hfold p, hstep.1 p]
+  · obtain ⟨d1, d2, d3, d4, d5⟩ :=
+      deliverAll_fields true (fromFullSets c.lmap c.adv).2 { c with lmap := (fromFullSets c.lmap c.adv).1 }
+    refine ⟨⟨?_, ?_, ?_⟩, fun hc => by simp at hc⟩
+    · intro p
+      rw [d4, d1]
+      simp only [↓reduceIte]
+      show p ∈ applyEvs c.lfold (fromFullSets c.lmap c.adv).2 ↔ p ∈ keys (fromFullSets c.lmap c.adv).1 ∧ _
+      rw [hstep.2 p, hstep.1 p]
+    · intro p; rw [d5, d3]; exact h.rem p
+    · intro p; rw [d2, d3]; exact h.rset p
+
+theorem pinv_setAdv (c : PC) (s : Option (List Name)) (h : PInv c) : PInv (setAdv c s) := by
+  obtain ⟨a1, a2, a3, a4, a5⟩ := setAdv_fields c s
+  exact ⟨by intro p; rw [a2, a1]; exact h.loc p, by intro p; rw [a3, a5]; exact h.rem p,
+    by intro p; rw [a4, a5]; exact h.rset p⟩
+
+theorem ploop_spec (fuel : Nat) (c : PC) (h : PInv c) :
+    PInv (ploop fuel c).1 ∧ ((ploop fuel c).2 = .pending → Synced (ploop fuel c).1) := by
+  induction fuel generalizing c with
+  | zero => exact ⟨h, by intro hc; cases hc⟩
+  | succ fuel ih =>
+    unfold ploop
+    split
+    · -- NotifyBehaviour: returned at once, the diff at the bottom is not reached
+      rename_i s r _
+      exact ⟨pinv_setAdv _ s ⟨h.loc, h.rem, h.rset⟩, by intro hc; cases hc⟩
+    · rename_i l r _
+      apply ih
+      have hs := remoteAdd_step c.rset l c.rfold c.reported h.rem h.rset
+      obtain ⟨d1, d2, d3, d4, d5⟩ := deliverAll_fields false (remoteAdd c.rset l).2
+        { c with steps := r, rset := (remoteAdd c.rset l).1, reported := reportFold c.reported true l,
+                 emitted := c.emitted ++ [(true, l)] }
+      exact ⟨by intro p; rw [d4, d1]; exact h.loc p,
+        by intro p; rw [d5, d3]; exact hs.1 p, by intro p; rw [d2, d3]; exact hs.2 p⟩
+    · rename_i l r _
+      apply ih
+      have hs := remoteRemove_step c.rset l c.rfold c.reported h.rem h.rset
+      obtain ⟨d1, d2, d3, d4, d5⟩ := deliverAll_fields false (remoteRemove c.rset l).2
+        { c with steps := r, rset := (remoteRemove c.rset l).1, reported := reportFold c.reported false l,
+                 emitted := c.emitted ++ [(false, l)] }
+      exact ⟨by intro p; rw [d4, d1]; exact h.loc p,
+        by intro p; rw [d5, d3]; exact hs.1 p, by intro p; rw [d2, d3]; exact hs.2 p⟩
+    · rename_i s r _
+      have hb := bottomStep_spec (setAdv { c with steps := r } s) (pinv_setAdv _ s ⟨h.loc, h.rem, h.rset⟩)
+      simp only
+      split
+      · exact ih _ hb.1
+      · rename_i hc
+        exact ⟨hb.1, fun _ => hb.2 (by simpa using hc)⟩
+    · have hb := bottomStep_spec c h
+      simp only
+      split
+      · exact ih _ hb.1
+      · rename_i hc
+        exact ⟨hb.1, fun _ => hb.2 (by simpa using hc)⟩
+
+theorem pinv_init (l : List Name) : PInv (pinit l) := by
+  refine ⟨?_, by intro p; simp [pinit], by intro p; simp [pinit]⟩
+  intro p
+  show p ∈ applyEvs [] (initLocal l).2 ↔ p ∈ keys (gather l) ∧ valid p = true
+  rw [init_fold l p, gather_keys l p]
+
+theorem pinv_pstep (c : PC) (o : POp) (h : PInv c) : PInv (pstep c o).1 := by
+  have h0 : PInv { c with log := [], emitted := [] } := ⟨h.loc, h.rem, h.rset⟩
+  cases o with
+  | steps l => exact ⟨h.loc, h.rem, h.rset⟩
+  | onEv l => exact ⟨h.loc, h.rem, h.rset⟩
+  | beh l => exact ⟨h.loc, h.rem, h.rset⟩
+  | poll => exact (ploop_spec _ _ h0).1
+
+/-- the state after an op history, from `Connection::new` with the handler advertising `l0` -/
+def preach (l0 : List Name) (ops : List POp) : PC := Machine.exec pstep (pinit l0) ops
+
+theorem pinv_reach (l0 : List Name) (ops : List POp) : PInv (preach l0 ops) :=
+  Machine.invariant_of_step pstep PInv pinv_pstep ops _ (pinv_init l0)
+
+/-- **C11.poll_return_synced** — for EVERY history (the handler changing its advertised set inside
+`poll` returning Pending or an event, inside `on_connection_event`, via `on_behaviour_event`; remote
+reports with duplicates / unknown removals; any interleaving with polls): whenever a
+`Connection::poll` returns `Pending`, the fold of the LocalProtocolsChange events the handler has
+received is exactly the valid part of what `listen_protocol()` advertises at that moment (and the
+connection's retained keys are exactly the advertised names). -/
+theorem poll_return_synced (l0 : List Name) (ops : List POp)
+    (hp : (pstep (preach l0 ops) .poll).2 = some .pending) :
+    Synced (pstep (preach l0 ops) .poll).1 := by
+  have h := pinv_reach l0 ops
+  have h0 : PInv { preach l0 ops with log := [], emitted := [] } := ⟨h.loc, h.rem, h.rset⟩
+  have := (ploop_spec ((preach l0 ops).steps.length + (preach l0 ops).onEv.length + 3) _ h0).2
+  apply this
+  simpa [pstep] using hp
+
+/-- **C11.poll_return_remote** — at every return of every op (Pending, event, or no poll at all) the
+fold of the RemoteProtocolsChange events equals the fold of the reports (added minus removed) and the
+connection's retained remote set; the local fold equals the valid part of the retained local keys. -/
+theorem poll_return_remote (l0 : List Name) (ops : List POp) :
+    PInv (preach l0 ops) := pinv_reach l0 ops
+
+/-- every local notification produced by the diff is real: non-empty lists only (no-op freedom
+follows from `fromFullSets_step` on the fold) -/
+theorem bottom_events_nonempty (c : PC) : ∀ e ∈ (fromFullSets c.lmap c.adv).2, e ≠ .added [] ∧ e ≠ .removed [] := by
+  intro e he
+  rw [fromFullSets_eq_finish] at he
+  unfold finish at he
+  simp only [List.mem_append] at he
+  rcases he with he | he <;> split at he <;> simp_all
+  all_goals (subst he; simp_all)
+
+/-- the lag at an *event* return is real (also in the code): a handler that changes its set inside a
+`poll` returning `NotifyBehaviour` is told only at the next `Connection::poll` -/
+example : (pstep (pstep (pinit [[47, 97]]) (.steps [.event (some [[47, 98]])])).1 .poll).1.lfold = [[47, 97]]
+    ∧ (pstep (pstep (pinit [[47, 97]]) (.steps [.event (some [[47, 98]])])).1 .poll).1.adv = [[47, 98]] := by decide
+/-- a scripted change inside `poll` returning Pending is reported before `Connection::poll` returns -/
+example : (pstep (pstep (pinit [[47, 97], [47, 98]]) (.steps [.pend (some [[47, 97], [47, 97]])])).1 .poll).2
+      = some .pending
+    ∧ (pstep (pstep (pinit [[47, 97], [47, 98]]) (.steps [.pend (some [[47, 97], [47, 97]])])).1 .poll).1.log
+      = [(true, .removed [[47, 98]])] := by decide
+
 /-! ## the pinned commit violates the property -/
 def pa : Name := [47, 97]
 def pb : Name := [47, 98]
@@ -431,3 +610,7 @@ end C11
 #print axioms C11.fromFullSets_step
 #print axioms C11.fromFullSets_eq_finish
 #print axioms C11.early_exit_duplicates_buggy_counterexample
+#print axioms C11.poll_return_synced
+#print axioms C11.poll_return_remote
+#print axioms C11.ploop_spec
+#print axioms C11.bottom_events_nonempty
